@@ -19,7 +19,9 @@ def row(d):
         if c.get("detected"):
             caught.append(p)
             how.append("input" if c.get("with_failing_input") else "nfi")
-    if not res.get("applies", True):
+    if meta.get("overtaken"):
+        caught, how = ["—"], ["overtaken by a later fix in /repo: " + re.sub(r"\s+", " ", meta["overtaken"])[:140].replace("|", "/")]
+    elif not res.get("applies", True):
         caught, how = ["—"], ["patch no longer applies"]
     elif not caught:
         caught, how = ["—"], ["missed"]
@@ -31,7 +33,7 @@ def row(d):
 def main():
     rows = [row(d) for d in sorted(glob.glob(os.path.join(VERIF, "seeded", "*-C??-?")))]
     n = len(rows)
-    det = sum(1 for r in rows if "| missed |" not in r and "no longer applies" not in r)
+    det = sum(1 for r in rows if "| missed |" not in r and "no longer applies" not in r and "overtaken by" not in r)
     inp = sum(1 for r in rows if re.search(r"\| (input|input, nfi) \|$", r))
     text = ("%d seeded changes; %d detected (%d with a concrete failing input as replay, the rest as a broken proof / fact / "
             "correspondence with `no-failing-input-found`); %d missed.\n\n"
